@@ -660,6 +660,13 @@ func (in *Interp) sliceOp(g *G, fr *Frame, ins *ssa.Slice) Value {
 			case lo == hi && lo >= 0 && lo <= int64(n):
 				return Value{K: KSlice, R: &SliceV{S: []Value{}}}
 			}
+			if lo < 0 || hi < lo || hi > int64(n) {
+				in.goPanic(g, fmt.Sprintf("slice bounds out of range [%d:%d] with capacity %d", lo, hi, n))
+				return Value{}
+			}
+			if v, ok := chunkSlice(x, lo, hi); ok {
+				return v
+			}
 			unsupported("slice [%d:%d] inside an opaque byte string of %d bytes", lo, hi, n)
 		}
 		lo := idx(ins.Low, 0)
@@ -769,6 +776,20 @@ func (in *Interp) indexAddr(g *G, fr *Frame, ins *ssa.IndexAddr) {
 	switch x.K {
 	case KSlice:
 		if n, ok := nominalLen(x); ok {
+			if i < 0 || i >= int64(n) {
+				in.goPanic(g, fmt.Sprintf("index out of range [%d] with length %d", i, n))
+				return
+			}
+			if b, ok := in.chunkByte(x, i); ok {
+				cell := &Value{}
+				*cell = b
+				if in.roCells == nil {
+					in.roCells = map[*Value]bool{}
+				}
+				in.roCells[cell] = true
+				in.set(fr, ins, Value{K: KPtr, R: cell})
+				return
+			}
 			unsupported("byte %d of an opaque byte string of %d bytes", i, n)
 		}
 		if x.R != nil {
